@@ -15,6 +15,7 @@ pub const ADD: u8 = 0; // update(k, get(k).derive_add_ctx(a), |set, c| set.add(m
 pub const RM_MEMBER: u8 = 1; // update(k, ctx, |set, _| set.rm(m, set.contains(m).derive_rm_ctx()))
 pub const RM_KEY: u8 = 2; // rm(k, get(k).derive_rm_ctx())
 pub const RM_KEY_CTX: u8 = 3; // rm(k, read_ctx().derive_rm_ctx())
+pub const ADD_ALL: u8 = 4; // update(k, get(k).derive_add_ctx(a), |set, c| set.add_all([0, 1], c)): one dot witnesses two members
 pub const KEYS: u8 = 3;
 pub const MEMBERS: u8 = 3;
 
@@ -56,6 +57,7 @@ impl Sys for MapOr {
             RM_MEMBER => s.update(c.x, s.get(&c.x).derive_add_ctx(a), |set, _ctx| set.rm(c.y, set.contains(&c.y).derive_rm_ctx())),
             RM_KEY => s.rm(c.x, s.get(&c.x).derive_rm_ctx()),
             RM_KEY_CTX => s.rm(c.x, s.read_ctx().derive_rm_ctx()),
+            ADD_ALL => s.update(c.x, s.get(&c.x).derive_add_ctx(a), |set, ctx| set.add_all(vec![0u8, 1u8], ctx)),
             _ => unreachable!(),
         })
     }
@@ -80,6 +82,7 @@ impl Sys for MapOr {
             RM_MEMBER => format!("update({k}, get({k}).derive_add_ctx(actor), |set, _| set.rm({m}, set.contains({m}).derive_rm_ctx()))", k = c.x, m = c.y),
             RM_KEY => format!("rm({k}, get({k}).derive_rm_ctx())", k = c.x),
             RM_KEY_CTX => format!("rm({k}, read_ctx().derive_rm_ctx())", k = c.x),
+            ADD_ALL => format!("update({k}, get({k}).derive_add_ctx(actor), |set, c| set.add_all({{0,1}}, c))", k = c.x),
             _ => "?".into(),
         }
     }
@@ -91,6 +94,7 @@ impl Sys for MapOr {
             ADD => format!("s.update({k}u8, s.get(&{k}).derive_add_ctx({a}), |set, c| set.add({m}u8, c))", k = c.x, a = a, m = c.y),
             RM_MEMBER => format!("s.update({k}u8, s.get(&{k}).derive_add_ctx({a}), |set, _c| set.rm({m}u8, set.contains(&{m}).derive_rm_ctx()))", k = c.x, a = a, m = c.y),
             RM_KEY => format!("s.rm({k}u8, s.get(&{k}).derive_rm_ctx())", k = c.x),
+            ADD_ALL => format!("s.update({k}u8, s.get(&{k}).derive_add_ctx({a}), |set, c| set.add_all(vec![0u8, 1u8], c))", k = c.x, a = a),
             _ => format!("s.rm({k}u8, s.read_ctx().derive_rm_ctx())", k = c.x),
         }
     }
@@ -104,7 +108,7 @@ impl Sys for MapOr {
         }
     }
     fn is_remove(c: Cmd) -> bool {
-        c.k != ADD
+        c.k != ADD && c.k != ADD_ALL
     }
     fn spec(recs: &[Rec<Self>], k: Mask, form: Form) -> Option<String> {
         let mut m: BTreeMap<u8, BTreeSet<u8>> = BTreeMap::new();
